@@ -75,9 +75,6 @@ func Supported(m *pgen.Msg) bool {
 		if f.Elem.Kind == pgen.Message && !Supported(f.Elem.Msg) {
 			return false
 		}
-		if (f.Wrap == pgen.MapVal || f.Wrap == pgen.MapValPtr) && f.Elem.Enc != "" {
-			return false
-		}
 	}
 	return true
 }
@@ -111,7 +108,7 @@ func msgProto(name, fq string, m *pgen.Msg) *descriptorpb.DescriptorProto {
 			}
 		case pgen.MapVal, pgen.MapValPtr:
 			entry := fmt.Sprintf("F%dEntry", i)
-			kt := scalarType(pgen.Elem{Kind: f.Key})
+			kt := scalarType(pgen.Elem{Kind: f.Key, Enc: f.KeyEnc})
 			yes := true
 			ed := &descriptorpb.DescriptorProto{Name: strp(entry), Options: &descriptorpb.MessageOptions{MapEntry: &yes}}
 			ed.Field = append(ed.Field, &descriptorpb.FieldDescriptorProto{Name: strp("key"), Number: i32p(1), Label: &opt, Type: &kt})
